@@ -45,6 +45,8 @@ type c19Case struct {
 	// loading (lexical errors, rejected statements): error paths of the lexer,
 	// parser and AST builder run in parallel too.
 	Splice []string `json:"splice,omitempty"`
+	// Readers (k2e): number of reader tasks.
+	Readers int `json:"readers,omitempty"`
 }
 
 type c19Driver struct{}
@@ -63,7 +65,7 @@ func (c19Driver) Tier(t string) core.Tier {
 func (c19Driver) Info() core.Info {
 	return core.Info{
 		Race: true,
-		Rule: "A case is a schedule (one integer + tick-switch probability 0, 1/200 or 1/20) and either (K1) 2-4 tasks that each create a Modules, load their own generated module set, Process and dump it, or (K2) one processed set read by 2-6 tasks issuing 5-40 seeded operations each (ToEntry of cached nodes, Find of absolute and relative paths of existing nodes, Namespace, InstantiatingModule, FindModuleByNamespace incl. first-time lookups of one namespace by several tasks, ReadOnly, DefaultValues, SingleDefaultValue, GetErrors, Path, IsDir/IsLeaf..., and in a separate mix Print into a private buffer). " +
+		Rule: "A case is a schedule (one integer + tick-switch probability 0, 1/200 or 1/20) and either (K1) 2-4 tasks that each create a Modules, load their own generated module set, Process and dump it, or (K2e, 1 run in 13) a set whose Process reported errors, its module entries and their children fetched beforehand and read by 2-5 tasks through Path, GetErrors, ReadOnly, Kind, or (K2) one processed set read by 2-6 tasks issuing 5-40 seeded operations each (ToEntry of cached nodes, Find of absolute and relative paths of existing nodes, Namespace, InstantiatingModule, FindModuleByNamespace incl. first-time lookups of one namespace by several tasks, ReadOnly, DefaultValues, SingleDefaultValue, GetErrors, Path, IsDir/IsLeaf..., and in a separate mix Print into a private buffer). " +
 			"Every lock acquisition and release offers a switch; a task may be descheduled while holding a lock (a blocked task yields instead of parking). Non-trivial: the schedule switched tasks at least once. Distinct schedules are counted by the hash of the pick trace.",
 		Assumptions: []string{
 			"tasks are real goroutines; which one logically proceeds is decided only by the seeded turn variable (//go:norace code + runtime.Gosched under GOMAXPROCS=1), so the scheduler adds no happens-before edge and the race detector sees exactly the library's own synchronisation",
@@ -109,6 +111,18 @@ func (c19Driver) Generate(t *tape.Tape, tier string) core.Case {
 				}
 			}
 		}
+		return c
+	}
+	if t.Chance(1, 8) {
+		// (K2e) readers of a set whose Process reported errors: the error
+		// accessors are among the reads the property lists
+		c.Kind = "k2e"
+		p := profC19(t.Sub("profile"))
+		p.Invalid, p.InvalidPct, p.MaxInvalid = allInvalid, 30, 3
+		g := model.Generate(t.Sub("scenario"), p)
+		c.Scenarios = []*model.Scenario{g.S}
+		c.Splice = []string{genSoup(t.Sub("splice"))}
+		c.Readers = t.Range(2, 5)
 		return c
 	}
 	c.Kind = "k2"
@@ -485,6 +499,80 @@ func (c19Driver) Run(cc core.Case) core.Outcome {
 			}
 		}
 		o.State = tape.Hash64([]byte(fmt.Sprint(want)))
+	case "k2e":
+		s := c.Scenarios[0]
+		ms0, errs0 := loadAndProcessSpliced(s, spliceOf(c, 0))
+		ms, errs := loadAndProcessSpliced(s, spliceOf(c, 0))
+		if len(errs0) == 0 || len(errs) == 0 {
+			o.Discard = "scenario-clean"
+			return o
+		}
+		// The entries are fetched before the concurrent phase (after a Process
+		// that stopped early ToEntry converts, which is not a read); the tasks
+		// only call accessors on them and on their children.
+		collect := func(ms *yang.Modules) []*yang.Entry {
+			var out []*yang.Entry
+			for _, m := range dump.DistinctModules(ms.Modules) {
+				e := yang.ToEntry(m)
+				out = append(out, e)
+				ks := make([]string, 0, len(e.Dir))
+				for k := range e.Dir {
+					ks = append(ks, k)
+				}
+				sort.Strings(ks)
+				for _, k := range ks {
+					out = append(out, e.Dir[k])
+				}
+			}
+			return out
+		}
+		read := func(es []*yang.Entry, rot int) string {
+			var sb strings.Builder
+			for i := range es {
+				e := es[(i+rot)%len(es)]
+				if e == nil {
+					continue
+				}
+				sb.WriteString(e.Path())
+				sb.WriteString(" errors:")
+				for _, err := range e.GetErrors() {
+					sb.WriteString(err.Error())
+					sb.WriteString("|")
+				}
+				if e.ReadOnly() {
+					sb.WriteString(" ro")
+				}
+				sb.WriteString(e.Kind.String())
+				sb.WriteString("\n")
+			}
+			return sb.String()
+		}
+		es := collect(ms)
+		if len(es) == 0 {
+			o.Discard = "no-entries"
+			return o
+		}
+		n := c.Readers
+		if n < 2 {
+			n = 2
+		}
+		got := make([]string, n)
+		tasks := make([]func(), n)
+		for i := range tasks {
+			i := i
+			tasks[i] = func() { got[i] = read(es, i) }
+		}
+		st := sched.Run(cfg, tasks)
+		recordSched(&o, st)
+		o.Count("probe.k2e_runs", 1)
+		es0 := collect(ms0)
+		for i := range got {
+			if want := read(es0, i); got[i] != want {
+				o.Fail("k2e-result-differs", "reader %d of a set whose Process reported errors: concurrent result differs from the sequential one: %s", i, firstDiff(want, got[i]))
+				return o
+			}
+		}
+		o.State = tape.Hash64([]byte(got[0]))
 	default:
 		o.Discard = "unknown-kind"
 	}
